@@ -123,6 +123,7 @@ async fn pair(c: &Value) -> Value {
     "DEALER_ROUTER" => ("DEALER", "ROUTER"),
     "ROUTER_DEALER" => ("ROUTER", "DEALER"),
     "REQ_REP" => ("REQ", "REP"),
+    "DUPLEX" => ("DEALER", "DEALER"),
     other => panic!("pattern {other}"),
   };
   let tr = c["tr"].as_str().unwrap();
@@ -210,6 +211,50 @@ async fn pair(c: &Value) -> Value {
     rows.extend(srows);
     rows.extend(rrows);
     rows.push(vec![97, refused]);
+    Ok(())
+  } else if pat == "DUPLEX" {
+    // both DEALERs send at the same time: even indices go sender -> receiver (rows 5/6), odd indices the other way
+    // (rows 15/16); every session reads big chunks while it has egress work of its own
+    if connector.connect(&ep).await.is_err() {
+      return json!({"rows": [[94]], "detail": "connect failed"});
+    }
+    tokio::time::sleep(Duration::from_millis(200)).await;
+    let side = |sock: Socket, tag: u64, parity: usize, sdir: u64| {
+      let sizes = sizes.clone();
+      async move {
+        let mut srows: Vec<Vec<u64>> = Vec::new();
+        let mut refused = 0u64;
+        for (i, &len) in sizes.iter().enumerate() {
+          if i % 2 != parity {
+            continue;
+          }
+          let st1 = send_one(&sock, vec![payload(tag, i as u64, len)], retries, &mut refused).await;
+          srows.push(vec![sdir, i as u64, st1]);
+          if st1 != 1 {
+            break;
+          }
+        }
+        (srows, refused)
+      }
+    };
+    let n_a = (n + 1) / 2;
+    let n_b = n / 2;
+    let mut rrows_b: Vec<Vec<u64>> = Vec::new();
+    let mut rrows_a: Vec<Vec<u64>> = Vec::new();
+    let ((sa, ra), (sb, rb), _, _) = tokio::join!(
+      side(sender.clone(), 1, 0, 5),
+      side(receiver.clone(), 2, 1, 15),
+      recv_some(&receiver, n_a, idle, sleep_us, sleep_every, &mut rrows_b),
+      recv_some(&sender, n_b, idle, sleep_us, sleep_every, &mut rrows_a)
+    );
+    rows.extend(sa);
+    rows.extend(sb);
+    rows.extend(rrows_b);
+    for mut r in rrows_a {
+      r[0] = 16;
+      rows.push(r);
+    }
+    rows.push(vec![97, ra + rb]);
     Ok(())
   } else {
     let sizes2 = sizes.clone();
